@@ -82,6 +82,19 @@ def schott_points():
     return _SCHOTT
 
 
+_AMB = []
+
+
+def ambiguous_rows():
+    if not _AMB:
+        R = rows()
+        names = [r['name'].lower() for r in R]
+        cats = [str(r['category_name']).lower() for r in R]
+        _AMB.extend(i for i in range(len(R)) if any((names[i] in names[j] or names[i] in cats[j])
+                                                     for j in range(len(R)) if j != i))
+    return list(_AMB)
+
+
 class C18(Check):
     pid = 'C18'
     title = 'Catalogue materials return the index their data file defines'
@@ -109,6 +122,9 @@ class C18(Check):
         cases = [dict(kind='row', row=i, npts=k) for i in range(n)]
         if tier == 'thorough':
             cases += [dict(kind='name', row=i, with_ref=b) for i in range(n) for b in (False, True)]
+        else:
+            # every name that also occurs inside another row's name or category (where the matching rules decide)
+            cases += [dict(kind='name', row=i, with_ref=False) for i in ambiguous_rows()]
         cases += [dict(kind='abbe', row=i) for i in range(n)]
         return cases
 
